@@ -89,7 +89,7 @@ func (e *env) baseExpect(step string, c *vclient.Client) expect {
 // login plays the login UI: subject, authentication time, amr, acr, additional audience.
 func (e *env) login(reqID string, x *expect) bool {
 	r := e.r
-	user := pick(r, "user-1", "user-2")
+	user := pick(r, "user-1", "user-2", "user-1", oddUser)
 	if !e.w.Store.CompleteLogin(reqID, user) {
 		return false
 	}
@@ -289,6 +289,10 @@ func (e *env) refresh(c *vclient.Client, prev *tokenResp, px expect) (*tokenResp
 }
 
 // rotate replaces the provider's signing key (new alg) and keeps publishing the old key.
+// oddUser is a subject full of characters that matter to URL-, form- and separator-based encodings (never ':', which
+// the opaque token format "<token id>:<subject>" cannot carry by construction). The storage knows no profile for it.
+const oddUser = "u3+x@example.com/ü %41|z&a=b"
+
 func (e *env) rotate() {
 	if e.d.RotateTo == "" {
 		return
@@ -319,7 +323,7 @@ func (e *env) deviceFlow(c *vclient.Client) {
 		e.flowFailed("device_authorization", resp)
 		return
 	}
-	user := pick(r, "user-1", "user-2")
+	user := pick(r, "user-1", "user-2", "user-1", oddUser)
 	if !e.w.Store.ApproveDevice(dc, user) {
 		e.run.HarnessBug("C06: device code returned by the provider is unknown to vstore")
 		e.aborted = true
